@@ -348,7 +348,20 @@ impl<'c, 'd> Parser<'c, 'd> {
         // Opcode numbers are 16 bits wide: do not truncate larger numbers into range.
         let grammar = u16::try_from(number)
             .ok()
-            .and_then(GInstTable::lookup_opcode);
+            .and_then(GInstTable::lookup_opcode)
+            // Operands that are decoded using the context of their own
+            // instruction (typed literals, switch cases, nested spec constant
+            // operations) cannot be decoded as part of an OpSpecConstantOp.
+            .filter(|g| {
+                !g.operands.iter().any(|o| {
+                    matches!(
+                        o.kind,
+                        GOpKind::LiteralContextDependentNumber
+                            | GOpKind::LiteralSpecConstantOpInteger
+                            | GOpKind::PairLiteralIntegerIdRef
+                    )
+                })
+            });
         if let Some(g) = grammar {
             // TODO: check whether this opcode is allowed here.
             operands.push(dr::Operand::LiteralSpecConstantOpInteger(g.opcode));
